@@ -4,11 +4,14 @@ import (
 	"bytes"
 	"encoding/json"
 	"fmt"
+	"io"
 	"math/rand"
+	"net/http"
 	"os"
 	"path/filepath"
 	"sort"
 	"strings"
+	"sync"
 
 	"github.com/spf13/viper"
 	wrgl "github.com/wrgl/wrgl/cmd/wrgl"
@@ -129,6 +132,7 @@ type syncInput struct {
 	ForcedDsts []string `json:"forcedDsts"`  // fetch with explicit per-branch refspecs: destinations whose refspec carries '+'
 	ShallowClone bool   `json:"shallowClone"`
 	MainOnly bool       `json:"mainOnly"`
+	StreamResets int    `json:"streamResets"` // fetch / pull: the first k packfile responses are cut half way with an HTTP/2 stream error
 	ExpTag bool         `json:"expTag"` // the remote has a tag on the second branch, outside the fetched refspecs
 	DevRelation string  `json:"devRelation"` // "", equal, ahead, unrelated, rewound: second branch `dev` on the remote
 	MaxPack uint64     `json:"maxPackfileSize"`
@@ -448,7 +452,12 @@ func runSyncCase(seed int64, thorough bool) (*syncInput, Res) {
 		srv.UploadRoundTrips, srv.Packfiles = 0, 0
 		cwd, _ := os.Getwd()
 		os.Chdir(root) // merge writes CONFLICTS_*.csv into the working directory
+		if (in.Action == "fetch" || in.Action == "pull") && r.Intn(6) == 0 {
+			in.StreamResets = 1 + r.Intn(6)
+		}
+		setStreamResets(in.StreamResets)
 		out, err := cli(dir, args...)
+		setStreamResets(0)
 		result := &syncResult{Failed: err != nil, Output: out, RoundTrips: srv.UploadRoundTrips, Packfiles: srv.Packfiles}
 		if err != nil {
 			result.Output += " ERR: " + err.Error()
@@ -498,4 +507,70 @@ func corpusSync(ctx *Ctx, op string, raw json.RawMessage) {
 	}
 	in2, res := runSyncCase(in.Seed, true)
 	ctx.Emit("sync", in2, res, true, "corpus", "action="+in2.Action, "relation="+in2.Relation)
+}
+
+
+// ---- transport fault: packfile responses cut half way with the error the HTTP/2 client reports for a
+// stream reset by the peer (the CLI builds its client on http.DefaultTransport) ---------------------
+
+type cutBody struct {
+	r    io.ReadCloser
+	left int
+	err  error
+}
+
+func (b *cutBody) Read(p []byte) (int, error) {
+	if b.left <= 0 {
+		return 0, b.err
+	}
+	if len(p) > b.left {
+		p = p[:b.left]
+	}
+	n, err := b.r.Read(p)
+	b.left -= n
+	if err != nil {
+		return n, b.err
+	}
+	return n, nil
+}
+func (b *cutBody) Close() error { return b.r.Close() }
+
+type resetTransport struct {
+	base http.RoundTripper
+	mu   sync.Mutex
+	left int
+	cut  int
+}
+
+func (t *resetTransport) RoundTrip(req *http.Request) (*http.Response, error) {
+	resp, err := t.base.RoundTrip(req)
+	if err != nil {
+		return resp, err
+	}
+	t.mu.Lock()
+	defer t.mu.Unlock()
+	if t.left > 0 && resp.Header.Get("Content-Type") == "application/x-wrgl-packfile" {
+		t.left--
+		t.cut++
+		b, err := io.ReadAll(resp.Body)
+		resp.Body.Close()
+		if err != nil {
+			return nil, err
+		}
+		resp.Body = &cutBody{r: io.NopCloser(bytes.NewReader(b)), left: len(b) / 2,
+			err: fmt.Errorf("stream error: stream ID %d; INTERNAL_ERROR; received from peer", 2*t.cut+1)}
+	}
+	return resp, nil
+}
+
+var theResetTransport *resetTransport
+
+func setStreamResets(k int) {
+	if theResetTransport == nil {
+		theResetTransport = &resetTransport{base: http.DefaultTransport}
+		http.DefaultTransport = theResetTransport
+	}
+	theResetTransport.mu.Lock()
+	theResetTransport.left = k
+	theResetTransport.mu.Unlock()
 }
